@@ -11,7 +11,7 @@ echo "# seeded change | property check | exit code | violations | replay on chan
 for d in /verif/seeded/*/; do
   name=$(basename $d)
   [ -f $d/patch.diff ] || continue
-  id=$(python3 -c "import json;print(json.load(open('$d/meta.json'))['property'])")
+  id=$(python3 -c "import json;m=json.load(open('$d/meta.json'));print(m.get('checked_by',m['property']))")
   obsolete=$(python3 -c "import json;print(json.load(open('$d/meta.json')).get('status_on_current_tree','')[:60])")
   git -C $S checkout -q -- . ; git -C $S clean -fdq
   if ! git -C $S apply $d/patch.diff 2>/dev/null; then echo "$name | $id | patch no longer applies (superseded by a fix) | | |" >> $out; continue; fi
